@@ -10,6 +10,7 @@ func init() {
 	vHarnesses["H_C02_roundtrip"] = H_C02_roundtrip
 	vHarnesses["H_C02_roundtrip_values"] = H_C02_roundtrip_values
 	vHarnesses["H_C02_roundtrip_opts"] = H_C02_roundtrip_opts
+	vHarnesses["H_C02_roundtrip_utf8"] = H_C02_roundtrip_utf8
 	vHarnesses["H_C02_roundtrip_cast"] = H_C02_roundtrip_cast
 	vHarnesses["H_C02_roundtrip_entities"] = H_C02_roundtrip_entities
 }
@@ -155,4 +156,15 @@ func H_C02_roundtrip_entities() {
 	o := vDecOpts{attrPrefix: "-", textKey: "#text"}
 	o.escape = vNondetBool()
 	vC02(root, o, vChoose(2) == 1)
+}
+
+// an attribute prefix that is a multi-byte character (concrete names, symbolic ASCII values)
+func H_C02_roundtrip_utf8() {
+	o := vDecOpts{textKey: "#text"}
+	o.attrPrefix = []string{"\u00a7", "@\u00e9", "\u2192"}[vChoose(3)]
+	o.simpleAsMap = vNondetBool()
+	k1 := &vXElem{name: "b", items: []vXItem{{kind: 1, text: vNondetString(1, 1, "xy")}}}
+	root := &vXElem{name: "r", attrs: [][2]string{{"id", vNondetString(1, 1, "12")}}, items: []vXItem{{kind: 0, el: k1}}}
+	vC02(root, o, vChoose(2) == 1)
+	vCover("utf8")
 }
